@@ -408,7 +408,7 @@ func (hi *hist) round(mode string, dupKind string) (map[string]nodeState, bool) 
 		j := h.rng.Intn(i + 1)
 		order[i], order[j] = order[j], order[i]
 	}
-	ok, err := h.runRound(b, hi.specs, order, nil)
+	ok, err := h.cleanRound(b, hi.specs, order)
 	if err != nil {
 		panic(err)
 	}
